@@ -119,9 +119,18 @@ impl StorageData for FileStorage {
     fn read(&'_ self, pos: u64, value_len: u64) -> Result<StorageSlice<'_>, DbError> {
         let mut buffer = vec![0_u8; value_len as usize];
 
+        #[cfg(agdb_verif)]
+        let _contended = if crate::verif::buggify("file_storage.read.contended") {
+            self.lock.try_lock().ok()
+        } else {
+            None
+        };
+
         if let Ok(_guard) = self.lock.try_lock() {
             Self::read_impl(&self.file, pos, &mut buffer)?;
         } else {
+            #[cfg(agdb_verif)]
+            crate::verif::hit("file_storage.read.fresh_handle");
             Self::read_impl(&self.open_file()?, pos, &mut buffer)?;
         }
 
